@@ -13,7 +13,7 @@ LEVEL_TEXT = {
  "C05": "Bounded symbolic execution (rs2smt + z3) of the real index-file code (init, write_index, write_last_applied_log, message code, FileMessageReader) over a modelled file layer: save hard state then restart, symbolic 64-bit values; every sequence of 2-3 requests to the RaftIndexManager actor (hard state, membership, addresses, catalogue, last-applied) observed in-process and after restart; plus Kani for the id codec at all u64.",
  "C07": "Translation validation of three programs (leader apply, follower batch, start-up replay): each request variant is symbolically evaluated through the three real function bodies and the emitted (actor, message) terms are compared by z3; plus the last-applied bookkeeping of the batch path vs the single path, plus the config actor itself on a leader and a follower replica after the same committed requests, plus the MCP registry on a replica that applies the log one by one and on one that restarts behind any prefix (log replay or the component's snapshot, then load-complete): same answers, same state (replayed on two real McpManager actors).",
  "C08": "Bounded symbolic execution (rs2smt + z3) of the receiving side of a snapshot installation in one process: FileStore::finalize_snapshot_installation and the ApplySnapshot handler of StateApplyManager with recording collaborators; oracle over the emissions (catalogue entry, membership, log split-off and pointer entry, every snapshot record delivered to the state machine followed by load-complete); counterexamples replayed on a real node through RaftStorage::{create_snapshot, finalize_snapshot_installation}. Plus the file a snapshot stream is received into under resent chunks and an interrupted earlier transfer (replayed on a real node), and the content of the snapshot for the data the property names: configuration, namespace and user records written by the leader's components and loaded by a fresh follower component. Narrow: the sending side and the raft protocol around the installation are outside. One known finding (S08-a).",
- "C09": "Bounded symbolic execution of the real config-store source (set_config, del_config, GET, index, history; tmp value and full-value import; listings under group / dataId filters on every page; the listing parameters of the OpenAPI accurate / blur search and of the console with arbitrary group / dataId strings) over every history of 3-4 operations with arbitrary string contents, decided by z3; counterexamples and sampled histories run on a real ConfigActor with the real md5.",
+ "C09": "Bounded symbolic execution of the real config-store source (set_config, del_config, GET, index, history; tmp value and full-value import; listings under group / dataId filters on every page; the listing parameters of the OpenAPI accurate / blur search and of the console with arbitrary group / dataId strings; the keys the four gRPC config handlers build for arbitrary request strings) over every history of 3-4 operations with arbitrary string contents, decided by z3; counterexamples and sampled histories run on a real ConfigActor with the real md5.",
  "C10": "Bounded symbolic execution of the real long-poll listener and gRPC subscriber source over every interleaving of 3-4 actor messages (listen, publish, remove, tick, tmp value of a forwarded publish, subscribe / unsubscribe / disconnect) with symbolic md5s / contents; oracle in state form: no registered listener holds an md5 that differs from the stored one.",
  "C11": "Bounded symbolic execution of the real naming Service source over every history of 3 operations on two addresses with symbolic instance flags (counters, persistent set and instance map agree after every step) and of the NamingActor registration paths (gRPC / HTTP register, deregister, connection close): the per-connection reverse map matches the stored owners after every step; the namespace / group index and the clean-up of empty services over three services (a service with an instance is never dropped; index == map); counterexamples and sampled paths run on the real Service / NamingActor.",
  "C12": "Bounded symbolic execution of the real naming Service source (query results vs a reference registry, removal ownership, fields of a new registration, the query filter for all flag combinations through the three query entry points: service info, instance list, instance page) and of the NamingActor registration paths: a connection close removes every instance the connection owns and nothing else.",
@@ -21,7 +21,7 @@ LEVEL_TEXT = {
  "C14": "Bounded symbolic execution of the real ownership and routing source for every cluster size up to 5, symbolic liveness and all 2^64 hash values, decided by z3; counterexamples replayed against the native build; plus every history of 3-4 timer ticks / pings on a 3-node cluster: the cached owner range follows the live set and the naming actor is told every change.",
  "C16": "Symbolic evaluation of the real route registration, auth middleware (session lookup answering session / no session / error), login handler (token lifetime), the replicated cache table that stores the sessions (nothing is served past login time + lifetime, whenever the entry is applied; every history of 3-4 requests with a symbolic clock), gRPC dispatcher and token gate source into string/regex/bit-vector SMT queries: route-language inclusion in the checked-path language (including percent-encoded spellings as actix requotes them), decision implication of the middleware, dispatch implication for every gRPC request type; counterexamples confirmed against the real predicates and end to end against the real App.",
  "C17": "Symbolic evaluation of the real console route table, role tables and login middleware source into SMT: unchecked API routes, role monotonicity, write protection, unknown roles, multi-role union, middleware decision; counterexamples confirmed against the real predicates.",
- "C18": "Symbolic evaluation of the privilege algebra and the two listing filters from the real source with an arbitrary privilege group and namespace string. Plus the way a restriction travels from the administrator's create / update request through the stored user record into a new session's group (replayed on a real single-node application). And the console handlers' call sites: every handler whose request names a namespace reaches the data layer only behind a successful permission check on that namespace (35 handlers evaluated from source; violations replayed on the real handlers with a restricted session; 9 MCP handlers are known findings).",
+ "C18": "Symbolic evaluation of the privilege algebra and the two listing filters from the real source with an arbitrary privilege group and namespace string. Plus the way a restriction travels from the administrator's create / update request through the stored user record into a new session's group (replayed on a real single-node application). And the console handlers' call sites: every handler whose request names a namespace reaches the data layer only behind a successful permission check on that namespace (43 handlers evaluated from source, including the handler functions of other modules that console routes point to; violations replayed on the real handlers with a restricted session; 9 MCP handlers and 4 mounted OpenAPI handlers are known findings). And the composed configuration key: a key that passed ConfigKey::is_valid survives build_key -> from for arbitrary strings, and a handler hands a key built from request strings to the raft route only behind that gate.",
  "C19": "Bounded model checking (Kani/CBMC) of SeqGroup under every schedule of the SequenceManager protocol and of SimpleSequence under leader change / snapshot / replay histories, plus symbolic evaluation of ConfigActor::set_config for the replicated high-water mark, of the replicated sequence table (every history of 4-5 requests incl. snapshot + load) and of two nodes' SequenceManagers in front of it (every schedule of 7-9 requests / fetch completions / self-sent fills, then a drain).",
  "C20": "Bounded model checking (Kani/CBMC): varint writer/reader/size agree for all 2^64 values; the reader's buffer compaction keeps the unread remainder for every buffer content and read position; MessageBufReader decodes every well-formed 8-byte stream identically to a reference decoder under fixed-size chunked reads for both consumer protocols of the repository; bounded symbolic execution (rs2smt + z3) of FileMessageReader over a file model: files of 2-3 records including records shorter than the 10-byte length peek, with and without zero padding; the snapshot reader and the naming metadata files (records file and file map) at the source's own 1024-byte chunk size.",
 }
